@@ -986,6 +986,480 @@ theorem denote_refines_grid (root : List α) (v : View) (p : Win) (S : Nat) (ht 
 
 end Grid
 
+/-! ## Bulk writers as equations with the grid oracle's `writeAll`
+
+The storage after `fill` / `fill_with` / `copy_from` / a pass over `rows_mut()` / `iter_mut()`, read
+back as a grid (rows of `S` cells), *equals* `Spec.Grid.writeAll` applied to the old grid and the
+view's window.  That cells outside the window keep their value (gaps between the rows of a strided
+view, surplus backing data) is a consequence of the equation: `writeAll` only ever calls
+`writeCell` on window cells. -/
+
+section BulkGrid
+open Retro.Spec.Grid
+variable {α : Type}
+
+/-! ### `writeAll`, cell by cell -/
+
+theorem setCell_length (g : Grid α) (X Y : Nat) (a : α) : (setCell g X Y a).length = g.length := by
+  unfold setCell
+  split <;> simp
+
+theorem foldl_length_inv {β : Type} (step : Grid α → β → Grid α)
+    (h : ∀ g b, (step g b).length = g.length) (l : List β) (g : Grid α) :
+    (l.foldl step g).length = g.length := by
+  induction l generalizing g with
+  | nil => rfl
+  | cons b bs ih => rw [List.foldl_cons, ih, h]
+
+theorem writeAll_length (g : Grid α) (p : Win) (f : Nat → Nat → α) : (writeAll g p f).length = g.length := by
+  unfold writeAll
+  apply foldl_length_inv
+  intro g y
+  apply foldl_length_inv
+  intro g x
+  exact setCell_length _ _ _ _
+
+/-- One row of `writeAll`: the first `n` cells of window row `y`. -/
+theorem cell?_rowWrite (g : Grid α) (p : Win) (y : Nat) (f : Nat → Nat → α) (n cx cy : Nat) :
+    cell? ((List.range n).foldl (fun g x => writeCell g p x y (f x y)) g) cx cy =
+      if cy = p.y0 + y ∧ p.x0 ≤ cx ∧ cx < p.x0 + n then (cell? g cx cy).map (fun _ => f (cx - p.x0) y)
+      else cell? g cx cy := by
+  induction n with
+  | zero =>
+    rw [if_neg (by omega)]
+    simp only [List.range_zero, List.foldl_nil]
+  | succ n ih =>
+    rw [List.range_succ, List.foldl_append, List.foldl_cons, List.foldl_nil, writeCell, cell?_setCell]
+    by_cases hc : cx = p.x0 + n ∧ cy = p.y0 + y
+    · obtain ⟨rfl, rfl⟩ := hc
+      rw [if_pos ⟨rfl, rfl⟩, ih, if_neg (by omega), if_pos (by omega)]
+      simp
+    · rw [if_neg hc, ih]
+      by_cases h1 : cy = p.y0 + y ∧ p.x0 ≤ cx ∧ cx < p.x0 + n
+      · rw [if_pos h1, if_pos (by omega)]
+      · rw [if_neg h1, if_neg (by omega)]
+
+/-- The first `m` rows of `writeAll`. -/
+theorem cell?_rowsWrite (g : Grid α) (p : Win) (f : Nat → Nat → α) (m cx cy : Nat) :
+    cell? ((List.range m).foldl
+        (fun g y => (List.range p.w).foldl (fun g x => writeCell g p x y (f x y)) g) g) cx cy =
+      if p.x0 ≤ cx ∧ cx < p.x0 + p.w ∧ p.y0 ≤ cy ∧ cy < p.y0 + m
+      then (cell? g cx cy).map (fun _ => f (cx - p.x0) (cy - p.y0)) else cell? g cx cy := by
+  induction m with
+  | zero =>
+    rw [if_neg (by omega)]
+    simp only [List.range_zero, List.foldl_nil]
+  | succ m ih =>
+    rw [List.range_succ, List.foldl_append, List.foldl_cons, List.foldl_nil, cell?_rowWrite, ih]
+    by_cases h1 : cy = p.y0 + m ∧ p.x0 ≤ cx ∧ cx < p.x0 + p.w
+    · rw [if_pos h1, if_neg (by omega), if_pos (by omega)]
+      obtain ⟨rfl, _, _⟩ := h1
+      simp
+    · rw [if_neg h1]
+      by_cases h2 : p.x0 ≤ cx ∧ cx < p.x0 + p.w ∧ p.y0 ≤ cy ∧ cy < p.y0 + m
+      · rw [if_pos h2, if_pos (by omega)]
+      · rw [if_neg h2, if_neg (by omega)]
+
+/-- **What `writeAll` means, cell by cell**: a cell of the window that exists in the grid receives
+`f` of its window coordinates, every other cell is untouched. -/
+theorem cell?_writeAll (g : Grid α) (p : Win) (f : Nat → Nat → α) (cx cy : Nat) :
+    cell? (writeAll g p f) cx cy =
+      if p.x0 ≤ cx ∧ cx < p.x0 + p.w ∧ p.y0 ≤ cy ∧ cy < p.y0 + p.h
+      then (cell? g cx cy).map (fun _ => f (cx - p.x0) (cy - p.y0)) else cell? g cx cy :=
+  cell?_rowsWrite g p f p.h cx cy
+
+/-- Grids with the same number of rows and the same cells are equal. -/
+theorem grid_ext {g1 g2 : Grid α} (hl : g1.length = g2.length)
+    (hc : ∀ x y, cell? g1 x y = cell? g2 x y) : g1 = g2 := by
+  apply List.ext_getElem hl
+  intro y h1 h2
+  apply List.ext_getElem?
+  intro x
+  have := hc x y
+  simpa [cell?, List.getElem?_eq_getElem h1, List.getElem?_eq_getElem h2] using this
+
+theorem ofFlatAux_length_congr (pitch : Nat) : ∀ (fuel : Nat) (l1 l2 : List α), l1.length = l2.length →
+    (ofFlatAux pitch fuel l1).length = (ofFlatAux pitch fuel l2).length := by
+  intro fuel
+  induction fuel with
+  | zero => intro l1 l2 _; rfl
+  | succ fuel ih =>
+    intro l1 l2 h
+    by_cases he : l1 = []
+    · have he2 : l2 = [] := List.length_eq_zero_iff.mp (by rw [← h, he]; rfl)
+      subst he he2; rfl
+    · have he2 : l2 ≠ [] := fun h2 => he (List.length_eq_zero_iff.mp (by rw [h, h2]; rfl))
+      have e1 : l1.isEmpty = false := by simp [he]
+      have e2 : l2.isEmpty = false := by simp [he2]
+      simp only [ofFlatAux, e1, e2, Bool.false_eq_true, if_false, List.length_cons]
+      rw [ih (l1.drop pitch) (l2.drop pitch) (by simp [h])]
+
+/-- The shape of the row arrangement depends only on the number of elements. -/
+theorem ofFlat_length_congr (S : Nat) (l1 l2 : List α) (h : l1.length = l2.length) :
+    (ofFlat S l1).length = (ofFlat S l2).length := by
+  unfold ofFlat
+  rw [h]
+  exact ofFlatAux_length_congr _ _ _ _ h
+
+/-- Columns `≥ S` do not exist in the row arrangement. -/
+theorem cell?_ofFlat_ge (S : Nat) (hS : 0 < S) (root : List α) (cx cy : Nat) (hcx : S ≤ cx) :
+    cell? (ofFlat S root) cx cy = none := by
+  have hm : max S 1 = S := by omega
+  simp only [cell?, ofFlat, hm, ofFlatAux_getElem? S hS _ root cy (Nat.le_refl _)]
+  by_cases h : cy * S < root.length
+  · simp only [h, if_true]
+    rw [List.getElem?_eq_none]
+    simp only [List.length_take]
+    omega
+  · simp only [h, if_false]
+
+theorem toFlat_ofFlatAux (pitch : Nat) : ∀ (fuel : Nat) (l : List α), l.length ≤ fuel → 0 < pitch →
+    toFlat (ofFlatAux pitch fuel l) = l := by
+  intro fuel
+  induction fuel with
+  | zero =>
+    intro l h _
+    have : l = [] := List.length_eq_zero_iff.mp (by omega)
+    subst this; rfl
+  | succ fuel ih =>
+    intro l h hp
+    by_cases he : l = []
+    · subst he; rfl
+    · have hl : 0 < l.length := List.length_pos_iff.mpr he
+      have e1 : l.isEmpty = false := by simp [he]
+      simp only [ofFlatAux, e1, Bool.false_eq_true, if_false, toFlat, List.flatten_cons]
+      have := ih (l.drop pitch) (by simp; omega) hp
+      simp only [toFlat] at this
+      rw [this, List.take_append_drop]
+
+/-- Arranging flat storage as a grid loses nothing: `toFlat` reads the storage back. -/
+theorem toFlat_ofFlat (S : Nat) (l : List α) : toFlat (ofFlat S l) = l :=
+  toFlat_ofFlatAux _ _ _ (Nat.le_refl _) (by omega)
+
+/-! ### From a frame statement on the root storage to the grid equation -/
+
+/-- If every cell `(x, y)` of a valid view tracking window `p` holds `f x y` afterwards and every
+root element that is not a cell of the view is unchanged, then the storage read back as a grid is
+`writeAll` of the old grid. -/
+theorem frame_eq_writeAll (root root' : List α) (v : View) (hv : ViewInv root.length v) (p : Win) (S : Nat)
+    (ht : Tracks v p S) (f : Nat → Nat → α) (hlen : root'.length = root.length)
+    (hin : ∀ x y, x < v.w → y < v.h → root'[v.off + (y * v.stride + x)]? = some (f x y))
+    (hout : ∀ j, ¬ InView v j → root'[j]? = root[j]?) :
+    ofFlat S root' = writeAll (ofFlat S root) p f := by
+  obtain ⟨t1, t2, t3, t4, t5⟩ := ht
+  apply grid_ext
+  · rw [writeAll_length]; exact ofFlat_length_congr S _ _ hlen
+  · intro cx cy
+    rw [cell?_writeAll]
+    rcases Nat.eq_zero_or_pos S with hS0 | hS
+    · -- pitch 0: the window has no columns, nothing is written
+      have hw0 : v.w = 0 := by omega
+      have : root' = root := by
+        apply List.ext_getElem?
+        intro j
+        apply hout
+        rintro ⟨x, y, hx, _, _⟩
+        omega
+      subst this
+      rw [if_neg (by omega)]
+    · by_cases hwin : p.x0 ≤ cx ∧ cx < p.x0 + p.w ∧ p.y0 ≤ cy ∧ cy < p.y0 + p.h
+      · rw [if_pos hwin]
+        obtain ⟨a1, a2, a3, a4⟩ := hwin
+        have hcx : cx < S := by omega
+        have hx : cx - p.x0 < v.w := by omega
+        have hy : cy - p.y0 < v.h := by omega
+        have ho : v.off = p.y0 * S + p.x0 := by rcases t5 with h | h; omega; exact h
+        have hmul : cy * S = p.y0 * S + (cy - p.y0) * S := by
+          rw [← Nat.add_mul]; congr 1; omega
+        have hk : v.off + ((cy - p.y0) * v.stride + (cx - p.x0)) = cy * S + cx := by
+          rw [ho, t1]; omega
+        obtain ⟨a, ha⟩ := cell_exists root v hv hx hy
+        rw [cell?_ofFlat S hS _ _ _ hcx, cell?_ofFlat S hS _ _ _ hcx, ← hk, hin _ _ hx hy, ha]
+        rfl
+      · rw [if_neg hwin]
+        by_cases hcx : cx < S
+        · rw [cell?_ofFlat S hS _ _ _ hcx, cell?_ofFlat S hS _ _ _ hcx]
+          apply hout
+          rintro ⟨x, y, hx, hy, he⟩
+          have ho : v.off = p.y0 * S + p.x0 := by rcases t5 with h | h; omega; exact h
+          have he' : cy * S + cx = (p.y0 + y) * S + (p.x0 + x) := by
+            rw [he, ho, t1, Nat.add_mul]; omega
+          obtain ⟨e1, e2⟩ := grid_index_injective hcx (by omega) he'
+          omega
+        · rw [cell?_ofFlat_ge S hS _ _ _ (by omega), cell?_ofFlat_ge S hS _ _ _ (by omega)]
+
+/-- The grid equation determines the new storage completely. -/
+theorem eq_toFlat_of_grid_eq {S : Nat} {root' : List α} {g : Grid α} (h : ofFlat S root' = g) :
+    root' = toFlat g := by rw [← h, toFlat_ofFlat]
+
+/-! ### The bulk writers -/
+
+/-- **fill = writeAll.** On every valid view (the window `p` of the grid of pitch `S`), on the
+contiguous fast path and on the row-by-row path alike: the storage after `fill(a)`, read back as a
+grid, is the old grid with every cell of the window overwritten by `a`. -/
+theorem fill_eq_writeAll (root : List α) (v : View) (hv : ViewInv root.length v) (p : Win) (S : Nat)
+    (ht : Tracks v p S) (a : α) :
+    ∃ root', Buf.fill root v a = .ok root' ∧
+      ofFlat S root' = writeAll (ofFlat S root) p (fun _ _ => a) := by
+  obtain ⟨root', h1, h2, h3, h4⟩ := fill_frame root v hv a
+  exact ⟨root', h1, frame_eq_writeAll root root' v hv p S ht _ h2 h3 h4⟩
+
+/-- … as a closed equation for the new storage itself. -/
+theorem fill_eq_toFlat_writeAll (root : List α) (v : View) (hv : ViewInv root.length v) (p : Win) (S : Nat)
+    (ht : Tracks v p S) (a : α) :
+    Buf.fill root v a = .ok (toFlat (writeAll (ofFlat S root) p (fun _ _ => a))) := by
+  obtain ⟨root', h1, h2⟩ := fill_eq_writeAll root v hv p S ht a
+  rw [h1, eq_toFlat_of_grid_eq h2]
+
+/-- **rows_mut = writeAll.** A pass over `rows_mut()` that stores `g x y` in element `x` of the
+`y`-th yielded row is `writeAll g` on the window. -/
+theorem rows_mut_write_eq (root : List α) (v : View) (hv : ViewInv root.length v) (p : Win) (S : Nat)
+    (ht : Tracks v p S) (g : Nat → Nat → α) :
+    ∃ root', rowsMutWrite root v (fun y => (List.range v.w).map (fun x => g x y)) = .ok root' ∧
+      ofFlat S root' = writeAll (ofFlat S root) p g := by
+  obtain ⟨root', h1, h2, h3, h4⟩ := rowsMut_frame root v hv (fun y => (List.range v.w).map (fun x => g x y))
+    (fun y _ => by simp)
+  refine ⟨root', h1, frame_eq_writeAll root root' v hv p S ht _ h2 ?_ h4⟩
+  intro x y hx hy
+  rw [h3 x y hx hy]
+  simp [hx]
+
+/-- **fill_with = writeAll.** `fill_with(f)` is `writeAll f` on the window (the closure receives
+window coordinates `(x, y)`, column first). -/
+theorem fill_with_eq_writeAll (root : List α) (v : View) (hv : ViewInv root.length v) (p : Win) (S : Nat)
+    (ht : Tracks v p S) (f : Nat → Nat → α) :
+    ∃ root', fillWith root v f = .ok root' ∧ ofFlat S root' = writeAll (ofFlat S root) p f :=
+  rows_mut_write_eq root v hv p S ht f
+
+theorem fill_with_eq_toFlat_writeAll (root : List α) (v : View) (hv : ViewInv root.length v) (p : Win) (S : Nat)
+    (ht : Tracks v p S) (f : Nat → Nat → α) :
+    fillWith root v f = .ok (toFlat (writeAll (ofFlat S root) p f)) := by
+  obtain ⟨root', h1, h2⟩ := fill_with_eq_writeAll root v hv p S ht f
+  rw [h1, eq_toFlat_of_grid_eq h2]
+
+/-- **iter_mut = writeAll.** A pass over `iter_mut()` that stores `seq k` in the `k`-th yielded
+element puts `seq (y·w + x)` in window cell `(x, y)`: `iter_mut()` walks the window row-major. (This
+is the model function the driver runs for the `iterm`/`rowsm` operations.) -/
+theorem iter_mut_write_eq (root : List α) (v : View) (hv : ViewInv root.length v) (p : Win) (S : Nat)
+    (ht : Tracks v p S) (seq : Nat → α) :
+    ∃ root', rowsMutWrite root v (fun y => (List.range v.w).map (fun x => seq (y * v.w + x))) = .ok root' ∧
+      ofFlat S root' = writeAll (ofFlat S root) p (fun x y => seq (y * v.w + x)) :=
+  rows_mut_write_eq root v hv p S ht (fun x y => seq (y * v.w + x))
+
+/-- **copy_from = writeAll.** With equal dimensions, `copy_from(src)` is `writeAll s` on the
+destination window, where `s x y` is what the *source's own view* shows at `(x, y)` — whatever the two
+strides, offsets and root storages are. -/
+theorem copy_from_eq_writeAll (root : List α) (v : View) (hv : ViewInv root.length v) (p : Win) (S : Nat)
+    (ht : Tracks v p S) (srcRoot : List α) (src : View) (hs : ViewInv srcRoot.length src)
+    (hd : v.w = src.w ∧ v.h = src.h) (s : Nat → Nat → α)
+    (hsrc : ∀ x y, x < src.w → y < src.h → Buf.get srcRoot src x y = .ok (some (s x y))) :
+    ∃ root', copyFrom root v srcRoot src = .ok root' ∧ ofFlat S root' = writeAll (ofFlat S root) p s := by
+  obtain ⟨root', h1, h2, h3, h4⟩ := copyFrom_frame root v hv srcRoot src hs hd
+  refine ⟨root', h1, frame_eq_writeAll root root' v hv p S ht _ h2 ?_ h4⟩
+  intro x y hx hy
+  obtain ⟨a, ha, hg⟩ := get_refines srcRoot src hs (x := x) (y := y) (by omega) (by omega)
+  rw [h3 x y hx hy, ha]
+  have := hsrc x y (by omega) (by omega)
+  rw [hg] at this
+  cases this
+  rfl
+
+/-- … with the source, too, read through the grid oracle: the destination grid afterwards is
+`writeAll` of the source grid's window cells. Pure oracle vocabulary on the right-hand side. -/
+theorem copy_from_eq_writeAll_grid (root : List α) (v : View) (hv : ViewInv root.length v) (p : Win) (S : Nat)
+    (ht : Tracks v p S) (srcRoot : List α) (src : View) (hs : ViewInv srcRoot.length src) (q : Win) (T : Nat)
+    (hq : Tracks src q T) (hd : v.w = src.w ∧ v.h = src.h) (s : Nat → Nat → α)
+    (hsrc : ∀ x y, x < q.w → y < q.h → readCell (ofFlat T srcRoot) q x y = some (s x y)) :
+    ∃ root', copyFrom root v srcRoot src = .ok root' ∧ ofFlat S root' = writeAll (ofFlat S root) p s := by
+  apply copy_from_eq_writeAll root v hv p S ht srcRoot src hs hd s
+  intro x y hx hy
+  rw [get_refines_grid srcRoot src hs q T hq x y, hsrc x y (by rw [← hq.w]; exact hx) (by rw [← hq.h]; exact hy)]
+
+/-- **Fast path = general path.** On every valid view `fill` computes what the row-by-row loop
+computes — also when it takes the single `slice::fill` over `data[..w·h]` (`is_contiguous`). -/
+theorem fill_fast_eq_general (root : List α) (v : View) (hv : ViewInv root.length v) (a : α) :
+    Buf.fill root v a = rowsMutWrite root v (fun _ => List.replicate v.w a) := by
+  obtain ⟨r1, e1, l1, i1, o1⟩ := fill_frame root v hv a
+  obtain ⟨r2, e2, l2, i2, o2⟩ := rowsMut_frame root v hv (fun _ => List.replicate v.w a) (fun y _ => by simp)
+  rw [e1, e2]
+  congr 1
+  apply List.ext_getElem?
+  intro j
+  by_cases hj : InView v j
+  · obtain ⟨x, y, hx, hy, rfl⟩ := hj
+    rw [i1 x y hx hy, i2 x y hx hy]
+    simp [hx]
+  · rw [o1 j hj, o2 j hj]
+
+/-- The fast path in its own terms: for a contiguous valid view the single run of `w·h` stores from
+`off` is the row-by-row result. -/
+theorem fill_contiguous_run (root : List α) (v : View) (hv : ViewInv root.length v)
+    (hc : isContiguous v = true) (a : α) :
+    rowsMutWrite root v (fun _ => List.replicate v.w a) =
+      .ok (setRun root v.off (List.replicate (v.w * v.h) a)) := by
+  rw [← fill_fast_eq_general root v hv a]
+  obtain ⟨r1, e1, _⟩ := fill_frame root v hv a
+  have hfit := viewFits_of_inv root v hv
+  rw [e1]
+  simp only [Buf.fill, hc, if_true, hfit, not_true_eq_false, if_false] at e1
+  split_ifs at e1 with hlen
+  · rw [← e1]
+
+/-! ### Order of the stores (= order of the closure calls of `fill_with`) -/
+
+/-- The stores of `setRun`, in program order, as `(root index, value)`. -/
+def runTrace (start : Nat) : List α → List (Nat × α)
+  | [] => []
+  | a :: as => (start, a) :: runTrace (start + 1) as
+
+/-- The stores of `writeRows`, in program order. -/
+def rowsTrace (off : Nat) : List Nat → List (List α) → List (Nat × α)
+  | s :: ss, r :: rs => runTrace (off + s) r ++ rowsTrace off ss rs
+  | _, _ => []
+
+/-- Perform a sequence of single-element stores, first to last. -/
+def replay (root : List α) (tr : List (Nat × α)) : List α := tr.foldl (fun r p => r.set p.1 p.2) root
+
+theorem setRun_eq_replay (root : List α) (s : Nat) (vals : List α) :
+    setRun root s vals = replay root (runTrace s vals) := by
+  induction vals generalizing root s with
+  | nil => rfl
+  | cons a as ih => simp only [setRun, runTrace, replay, List.foldl_cons]; exact ih _ _
+
+theorem writeRows_eq_replay (root : List α) (off : Nat) (starts : List Nat) (rows : List (List α)) :
+    writeRows root off starts rows = replay root (rowsTrace off starts rows) := by
+  induction starts generalizing root rows with
+  | nil => cases rows <;> rfl
+  | cons s ss ih =>
+    cases rows with
+    | nil => rfl
+    | cons r rs =>
+      simp only [writeRows, rowsTrace, replay, List.foldl_append]
+      rw [ih, setRun_eq_replay]
+      rfl
+
+theorem runTrace_map_range (s n : Nat) (g : Nat → α) :
+    runTrace s ((List.range n).map g) = (List.range n).map (fun x => (s + x, g x)) := by
+  induction n generalizing s g with
+  | zero => rfl
+  | succ n ih =>
+    rw [List.range_succ_eq_map, List.map_cons, List.map_map, runTrace, ih, List.map_cons, List.map_map]
+    congr 1
+    apply List.map_congr_left
+    intro x _
+    simp only [Function.comp, Nat.succ_eq_add_one]
+    congr 1
+    omega
+
+theorem rowsTrace_map (off : Nat) {ι : Type} (l : List ι) (g1 : ι → Nat) (g2 : ι → List α) :
+    rowsTrace off (l.map g1) (l.map g2) = (l.map (fun i => runTrace (off + g1 i) (g2 i))).flatten := by
+  induction l with
+  | nil => rfl
+  | cons i is ih => simp only [List.map_cons, rowsTrace, ih, List.flatten_cons]
+
+/-- Row-major enumeration: the rows `y = 0 … h−1` of `G · y` over `x = 0 … w−1`, concatenated, list
+`G (k mod w) (k div w)` for `k = 0 … w·h − 1`. -/
+theorem rowMajor_flatten {β : Type} (w h : Nat) (G : Nat → Nat → β) :
+    ((List.range h).map (fun y => (List.range w).map (fun x => G x y))).flatten =
+      (List.range (w * h)).map (fun k => G (k % w) (k / w)) := by
+  rcases Nat.eq_zero_or_pos w with hw | hw
+  · subst hw; simp
+  · induction h with
+    | zero => simp
+    | succ h ih =>
+      rw [List.range_succ, List.map_append, List.flatten_append, ih, Nat.mul_succ, List.range_add,
+        List.map_append, List.map_map]
+      congr 1
+      simp only [List.map_cons, List.map_nil, List.flatten_cons, List.flatten_nil, List.append_nil]
+      apply List.map_congr_left
+      intro x hx
+      have hx := List.mem_range.mp hx
+      simp only [Function.comp]
+      rw [Nat.mul_add_mod, Nat.mod_eq_of_lt hx, Nat.mul_add_div hw, Nat.div_eq_of_lt hx, Nat.add_zero]
+
+/-- **Store order of everything that goes through `rows_mut()`.** On a valid view the `k`-th store
+(`k = 0 … w·h − 1`) goes to cell `(k mod w, k div w)` — root index `off + (k div w)·stride + k mod w` —
+and stores `g (k mod w) (k div w)`; there are no other stores. -/
+theorem rowsMut_store_order (root : List α) (v : View) (hv : ViewInv root.length v) (g : Nat → Nat → α) :
+    rowsMutWrite root v (fun y => (List.range v.w).map (fun x => g x y)) =
+      .ok (replay root ((List.range (v.w * v.h)).map
+        (fun k => (v.off + ((k / v.w) * v.stride + k % v.w), g (k % v.w) (k / v.w))))) := by
+  rcases Nat.eq_zero_or_pos v.w with hw | hw
+  · obtain ⟨starts, hs, _⟩ := rowWindows_zero_width hw
+    have hnil : ∀ r ∈ (List.range starts.length).map (fun y => (List.range v.w).map (fun x => g x y)), r = [] := by
+      intro r hr
+      obtain ⟨y, _, rfl⟩ := List.mem_map.mp hr
+      simp [hw]
+    simp only [rowsMutWrite, viewFits_of_inv root v hv, hs, not_true_eq_false, if_false]
+    rw [writeRows_nil_rows _ _ _ _ hnil, hw, Nat.zero_mul]
+    rfl
+  · simp only [rowsMutWrite, viewFits_of_inv root v hv, rowWindows_pos hv.1 hw, List.length_map,
+      List.length_range, not_true_eq_false, if_false]
+    rw [writeRows_eq_replay, rowsTrace_map]
+    congr 2
+    rw [← rowMajor_flatten v.w v.h (fun x y => (v.off + (y * v.stride + x), g x y))]
+    congr 1
+    apply List.map_congr_left
+    intro y _
+    rw [runTrace_map_range]
+    apply List.map_congr_left
+    intro x _
+    simp only [Nat.add_assoc]
+
+/-- **fill_with: row-major evaluation order.** The `k`-th call of the closure is `f(k mod w, k div w)`
+and its result is stored in cell `(k mod w, k div w)` before the next call: `fill_with` is this
+sequence of `w·h` single stores. -/
+theorem fill_with_call_order (root : List α) (v : View) (hv : ViewInv root.length v) (f : Nat → Nat → α) :
+    fillWith root v f =
+      .ok (replay root ((List.range (v.w * v.h)).map
+        (fun k => (v.off + ((k / v.w) * v.stride + k % v.w), f (k % v.w) (k / v.w))))) :=
+  rowsMut_store_order root v hv f
+
+/-- **iter_mut: row-major order.** The `k`-th element `iter_mut()` yields is cell `(k mod w, k div w)`:
+storing `seq k` in the `k`-th yielded element is this sequence of single stores. -/
+theorem iter_mut_store_order (root : List α) (v : View) (hv : ViewInv root.length v) (seq : Nat → α) :
+    rowsMutWrite root v (fun y => (List.range v.w).map (fun x => seq (y * v.w + x))) =
+      .ok (replay root ((List.range (v.w * v.h)).map
+        (fun k => (v.off + ((k / v.w) * v.stride + k % v.w), seq k)))) := by
+  rw [rowsMut_store_order root v hv (fun x y => seq (y * v.w + x))]
+  congr 2
+  apply List.map_congr_left
+  intro k _
+  congr 2
+  rw [Nat.mul_comm]
+  exact Nat.div_add_mod k v.w
+
+/-! ### Every view the API can produce is a window of the grid of its root stride -/
+
+theorem childOf_stride (v : View) (rc : Rect) : (childOf v rc).stride = v.stride := by
+  unfold childOf
+  split_ifs <;> rfl
+
+/-- Every reachable view tracks some window of the grid whose pitch is the view's stride, so the
+equations above apply to every view obtainable through the API (with `reachable_inv`). -/
+theorem reachable_tracks {n : Nat} {v : View} (hr : Reachable n v) : ∃ p, Tracks v p v.stride := by
+  induction hr with
+  | @root w h s v hs =>
+    have ht := tracks_root hs
+    obtain ⟨_, e⟩ := (sliceNew_ok_iff _ _ _ _ _).mp hs
+    have : v.stride = s := by rw [e]
+    rw [this]
+    exact ⟨_, ht⟩
+  | @slice v c rc hrv hs ih =>
+    obtain ⟨p, hp⟩ := ih
+    have hv := reachable_inv hrv
+    have hin : Inside rc v := (slice_ok_iff n v hv rc).mp ⟨c, hs⟩
+    rw [(slice_total n v hv rc hin).1] at hs
+    cases hs
+    rw [childOf_stride]
+    exact ⟨_, (tracks_slice hp rc hin).1⟩
+  | @asSlice v c hrv hs ih =>
+    rw [asSlice_id (reachable_inv hrv)] at hs
+    cases hs
+    exact ih
+
+end BulkGrid
+
 /-! ## Non-vacuity: concrete values meeting the hypotheses above, and the former defect witnesses -/
 
 section Examples
@@ -1018,6 +1492,51 @@ example : Buf.slice { w := 4, h := 5, stride := 4, off := 0, len := 20 } (Rect.o
 -- row index 2^32 + 1 of a 2x2 buffer (fixed by b7ab254): out of bounds, not row 1
 example : rowIndex [1, 2, 3, 4] { w := 2, h := 2, stride := 2, off := 0, len := 4 } 4294967297 =
     .panic "position out of bounds" := by decide
+
+
+/-! ### Bulk writers = `writeAll`: a strided 3×2 window at (1, 1) of a 5×4 storage -/
+
+/-- `Slice2::new((5, 4), 5, &[0..20])`, then `.slice((1..4, 1..3))`. -/
+def exRoot5 : List Nat := List.range 20
+def exV5 : View := { w := 5, h := 4, stride := 5, off := 0, len := 20 }
+def exW : View := { w := 3, h := 2, stride := 5, off := 6, len := 8 }
+def exP : Retro.Spec.Grid.Win := { x0 := 1, y0 := 1, w := 3, h := 2 }
+
+example : sliceNew 5 4 5 20 = .ok exV5 ∧ Buf.slice exV5 (Rect.ofCorners 1 1 4 3) = .ok exW := by decide
+example : Reachable 20 exW :=
+  Reachable.slice (v := exV5) (rc := Rect.ofCorners 1 1 4 3)
+    (Reachable.root (w := 5) (h := 4) (s := 5) (v := exV5) (by decide)) (by decide)
+example : ViewInv exRoot5.length exW ∧ isContiguous exW = false := by decide
+example : Tracks exW exP 5 := ⟨rfl, rfl, rfl, by decide, Or.inr (by decide)⟩
+-- the window is what `tracks_root` + `tracks_slice` compute
+example : (Retro.Spec.Grid.Win.mk 0 0 5 4).sub 1 1 4 3 = exP := by decide
+-- fill: the equation, evaluated
+example : Buf.fill exRoot5 exW 99 = .ok [0, 1, 2, 3, 4, 5, 99, 99, 99, 9, 10, 99, 99, 99, 14, 15, 16, 17, 18, 19] := by decide
+example : Retro.Spec.Grid.writeAll (Retro.Spec.Grid.ofFlat 5 exRoot5) exP (fun _ _ => 99) =
+    [[0, 1, 2, 3, 4], [5, 99, 99, 99, 9], [10, 99, 99, 99, 14], [15, 16, 17, 18, 19]] := by decide
+example : Retro.Spec.Grid.ofFlat 5 [0, 1, 2, 3, 4, 5, 99, 99, 99, 9, 10, 99, 99, 99, 14, 15, 16, 17, 18, 19] =
+    Retro.Spec.Grid.writeAll (Retro.Spec.Grid.ofFlat 5 exRoot5) exP (fun _ _ => 99) := by decide
+-- fill_with: `f x y = 100·y + x`, window coordinates
+example : fillWith exRoot5 exW (fun x y => 100 * y + x) =
+    .ok (Retro.Spec.Grid.toFlat (Retro.Spec.Grid.writeAll (Retro.Spec.Grid.ofFlat 5 exRoot5) exP (fun x y => 100 * y + x))) := by
+  decide
+example : fillWith exRoot5 exW (fun x y => 100 * y + x) =
+    .ok [0, 1, 2, 3, 4, 5, 0, 1, 2, 9, 10, 100, 101, 102, 14, 15, 16, 17, 18, 19] := by decide
+-- … and its store order: the k-th store goes to cell (k mod 3, k div 3)
+example : (List.range (exW.w * exW.h)).map (fun k => (exW.off + ((k / exW.w) * exW.stride + k % exW.w), k % exW.w, k / exW.w)) =
+    [(6, 0, 0), (7, 1, 0), (8, 2, 0), (11, 0, 1), (12, 1, 1), (13, 2, 1)] := by decide
+-- copy_from a strided 3×2 source (stride 4, offset 1 of 12 elements)
+example : ViewInv 12 { w := 3, h := 2, stride := 4, off := 1, len := 7 } := by decide
+example : copyFrom exRoot5 exW ((List.range 12).map (· + 500)) { w := 3, h := 2, stride := 4, off := 1, len := 7 } =
+    .ok [0, 1, 2, 3, 4, 5, 501, 502, 503, 9, 10, 505, 506, 507, 14, 15, 16, 17, 18, 19] := by decide
+example : ∀ x, x < 3 → ∀ y, y < 2 →
+    Buf.get ((List.range 12).map (· + 500)) { w := 3, h := 2, stride := 4, off := 1, len := 7 } x y =
+      .ok (some (501 + 4 * y + x)) := by decide
+-- fast path = general path on a contiguous view with surplus data (2×2, stride 2, 6 elements)
+example : isContiguous { w := 2, h := 2, stride := 2, off := 0, len := 6 } = true ∧
+    Buf.fill [0, 0, 0, 0, 7, 7] { w := 2, h := 2, stride := 2, off := 0, len := 6 } 1 =
+      rowsMutWrite [0, 0, 0, 0, 7, 7] { w := 2, h := 2, stride := 2, off := 0, len := 6 } (fun _ => List.replicate 2 1) := by
+  decide
 
 end Examples
 
